@@ -100,6 +100,37 @@ func deflateRaw(data []byte, level int) []byte {
 	return out[:len(out)-4]
 }
 
+// deflateVariant produces the payload of a compressed message the way other conformant senders
+// may (RFC 7692 7.2.1 / 7.2.3): mode 0 one sync flush; mode 1 several writes, each followed by a
+// sync flush (several blocks, empty stored blocks inside the message); mode 2 a stream that ends
+// with a BFINAL=1 block, after which an empty stored block is appended and its last four octets
+// removed (one 0x00 octet remains after the final block).
+func deflateVariant(rng *rand.Rand, data []byte, level int) []byte {
+	var buf bytes.Buffer
+	w, _ := flate.NewWriter(&buf, level)
+	switch rng.Intn(4) {
+	case 1:
+		rest := data
+		for len(rest) > 0 {
+			n := 1 + rng.Intn(len(rest))
+			w.Write(rest[:n])
+			w.Flush()
+			rest = rest[n:]
+		}
+		w.Flush()
+		out := buf.Bytes()
+		return out[:len(out)-4]
+	case 2:
+		w.Write(data)
+		w.Close()
+		return append(append([]byte{}, buf.Bytes()...), 0x00)
+	}
+	w.Write(data)
+	w.Flush()
+	out := buf.Bytes()
+	return out[:len(out)-4]
+}
+
 // ---------------------------------------------------------------- reader case spec
 
 type ROp struct {
@@ -577,7 +608,7 @@ func genConformantStream(rng *rand.Rand, peerMasked, negotiated bool, nmsgs, max
 		wire := data
 		comp := negotiated && rng.Intn(2) == 0
 		if comp {
-			wire = deflateRaw(data, core.Pick(rng, []int{-2, -1, 0, 1, 5, 9}))
+			wire = deflateVariant(rng, data, core.Pick(rng, []int{-2, -1, 0, 1, 5, 9}))
 		}
 		msgs = append(msgs, genMsg{Ty: ty, Data: data, Compressed: comp})
 		// fragmentation
